@@ -235,15 +235,21 @@ func pkgSource(repo, ver string) string {
 	return repo + ":" + ver
 }
 
+// lockBase is how the Lock spells package sources in this vector: with the registry, or (every other install / update vector)
+// without it, the way a package's crossplane.yaml usually names its dependencies - "org/d" and "xpkg.example.org/org/d" are the
+// same repository under the configured default registry, and the installed Package objects always carry the full form
+// (added after the seeded change C17-m9 - the resolver finds the installed package by comparing source strings - was missed).
+var lockBase = base
+
 func lockDep(target string, c string) v1beta1.Dependency {
-	return v1beta1.Dependency{Package: base + target, Type: ptr.To(v1beta1.ProviderPackageType), Constraints: c}
+	return v1beta1.Dependency{Package: lockBase + target, Type: ptr.To(v1beta1.ProviderPackageType), Constraints: c}
 }
 
 func lockPkg(n, ver string, deps []v1beta1.Dependency) v1beta1.LockPackage {
 	if deps == nil {
 		deps = []v1beta1.Dependency{}
 	}
-	return v1beta1.LockPackage{Name: n + "-rev", Type: ptr.To(v1beta1.ProviderPackageType), Source: base + n, Version: ver, Dependencies: deps}
+	return v1beta1.LockPackage{Name: n + "-rev", Type: ptr.To(v1beta1.ProviderPackageType), Source: lockBase + n, Version: ver, Dependencies: deps}
 }
 
 // packages projects the Provider objects in the store: repository -> version string.
@@ -251,6 +257,9 @@ func packages(s *simapi.Server) map[string]string {
 	out := map[string]string{}
 	for _, u := range s.All(simapi.Key{Group: "pkg.crossplane.io", Kind: "Provider"}.GK()) {
 		src, _, _ := unstructured.NestedString(u.Object, "spec", "package")
+		if strings.HasPrefix(src, "org/") {
+			src = registry + "/" + src // (a source without registry names the repository of the default registry)
+		}
 		if !strings.HasPrefix(src, base) {
 			out["?"+u.GetName()] = src
 			continue
@@ -349,7 +358,7 @@ func sorted(m map[string]bool) []string {
 	return out
 }
 
-func short(id string) string { return strings.TrimPrefix(id, base) }
+func short(id string) string { return strings.TrimPrefix(strings.TrimPrefix(id, base), "org/") }
 
 func runDagImpl(newDag dag.NewDAGFn, pkgs []v1beta1.LockPackage) map[string]any {
 	out := map[string]any{"panic": false, "initErr": false, "implied": []string{}, "sortErr": false, "sortMsg": "", "order": []string{}, "trace": []any{}}
@@ -685,7 +694,12 @@ func main() {
 		case "dag":
 			out = d.runDag(sc.Input, rng)
 		case "install", "update":
+			lockBase = base
+			if i%2 == 1 {
+				lockBase = "org/"
+			}
 			out = d.runVer(hd.Fam, sc.Input, rng)
+			lockBase = base
 		case "resolve":
 			out = d.runResolve(sc.Input, rng)
 		default:
